@@ -144,6 +144,9 @@ fn obj_mode(ops: &[String]) {
 
 fn main() {
 	let args: Vec<String> = std::env::args().skip(1).collect();
+	if args.first().map(|s| s.as_str()) == Some("mapped") {
+		std::panic::set_hook(Box::new(|_| {}));
+	}
 	if args.first().map(|s| s.as_str()) == Some("unord") {
 		// `unord k=v,k=v k=v,k=v`: unordered_eq(A, B) and unordered_eq(B, A) on the real Object
 		use json_syntax::{Object, UnorderedPartialEq, Value};
@@ -158,6 +161,34 @@ fn main() {
 		let a = build(args.get(1).map(|s| s.as_str()).unwrap_or(""));
 		let b = build(args.get(2).map(|s| s.as_str()).unwrap_or(""));
 		println!("{} {}", a.unordered_eq(&b), b.unordered_eq(&a));
+		return;
+	}
+	if args.first().map(|s| s.as_str()) == Some("mapped") {
+		// `mapped k:vol,k:vol QUERY`: parses {"k":[0,..],..} (value i has `vol` fragments) with the real parser and
+		// prints the offsets yielded by the real get_mapped_entries / get_mapped for QUERY
+		use json_syntax::{Parse, Value};
+		let mut doc = String::from("{");
+		for (i, kv) in args[1].split(',').filter(|x| !x.is_empty()).enumerate() {
+			let (k, v) = kv.split_once(':').unwrap();
+			let n: usize = v.parse().unwrap();
+			if i > 0 {
+				doc.push(',');
+			}
+			doc.push_str(&format!("\"{}\":[{}]", k, vec!["0"; n - 1].join(",")));
+		}
+		doc.push('}');
+		let (v, cm) = Value::parse_str(&doc).unwrap();
+		let o = v.as_object().unwrap();
+		let q = args.get(2).map(|s| s.as_str()).unwrap_or("");
+		let r = std::panic::catch_unwind(std::panic::AssertUnwindSafe(|| {
+			let es: Vec<String> = o.get_mapped_entries(&cm, 0, q).map(|e| format!("{}.{}.{}", e.offset, e.value.key.offset, e.value.value.offset)).collect();
+			let vs: Vec<String> = o.get_mapped(&cm, 0, q).map(|e| format!("{}", e.offset)).collect();
+			format!("E {} V {}", es.join(";"), vs.join(";"))
+		}));
+		match r {
+			Ok(l) => println!("{}", l),
+			Err(_) => println!("PANIC"),
+		}
 		return;
 	}
 	if args.first().map(|s| s.as_str()) == Some("obj") {
